@@ -298,3 +298,96 @@ PROPS["C01"] = {
     "assumptions": [],
     "not_covered": [],
 }
+
+
+# ------------------------------------------------------------------ C10
+SCALARS5 = [("int", "int", False), ("unsigned", "unsigned", False), ("size_t", "size_t", False),
+            ("float", "float", True), ("double", "double", True)]
+
+
+def cells_C10(tier, consts):
+    cells = []
+    for n in (1, 2, 3, 4):
+        un = "clamp@N=%d" % n
+        for sname, sty, fl in SCALARS5:
+            d = {"DIMS_IN": n, "IN_SCALAR_T": sty, "DIMS_OUT": 3 if n != 3 else 1, "OUT_SCALAR_T": "float"}
+            if fl:
+                d["VERIF_FLOATING"] = 1
+            cells.append(Cell("clamp.adjust.N%d.%s" % (n, sname), un, "h_clamp_adjust", defines=d, enforce="clamp_adjust", unwind=6,
+                              closes_loops="harness loops over N (complete)", replay="clamp"))
+            cells.append(Cell("clamp.at.N%d.%s" % (n, sname), un, "h_clamp_at", defines=d, enforce="clamp_at",
+                              replace=["clamp_adjust"], unwind=6, closes_loops="harness loops over N (complete)", replay="clamp"))
+            if not fl:
+                cells.append(Cell("clamp.safe.N%d.%s" % (n, sname), un, "h_clamp_safe", defines=dict(d, VERIF_CLAMP_OVER_STORAGE=1),
+                                  replace=["clamp_at"], unwind=6, closes_loops="harness loops over N (complete)", replay="clamp"))
+    return cells
+
+
+PROPS["C10"] = {
+    "level_text": "clamp::adjust and clamp::at proved against C10's statement for every coordinate value of int/unsigned/size_t/float/double (incl. type extremes and infinities), N=1..4, against an abstract backend; lemma: a box inside the extents puts the delegated coordinate inside the extents (the precondition of the storage-order contracts of C01)",
+    "level_note": "std::clamp modelled by a stub written from [alg.clamp]; NaN coordinates and boxes with min > max are outside the domain; pack expansion / braced-init overload resolution modelled by rule R8",
+    "design_ref": "DESIGN.md section 5 (C10)",
+    "cells": cells_C10,
+    "consts": False,
+    "explanation": "clamp layer extracted and verified against an abstract backend contract",
+    "trusted_base": ["std::clamp stub (stubs in contracts/clamp.h) per [alg.clamp]"],
+    "assumptions": ["coordinates are not NaN; the configured box satisfies min <= max componentwise (std::clamp precondition)",
+                    "composition with the storage layer is by the modular argument of C02 (each layer against the abstract backend)"],
+    "not_covered": ["clamp's constructors (the .fill() overload does not compile, D9)"],
+}
+
+
+# ------------------------------------------------------------------ C11
+def cells_C11(tier, consts):
+    cells = []
+    for n in (1, 2, 3, 4):
+        for sname, sty, fl in SCALARS5:
+            for m in ((1, 3) if n in (1, 3) else (3,)):
+                d = {"DIMS_IN": n, "IN_SCALAR_T": sty, "DIMS_OUT": m, "OUT_SCALAR_T": "float" if n % 2 else "double"}
+                if fl:
+                    d["VERIF_FLOATING"] = 1
+                cells.append(Cell("backup.at.N%d.M%d.%s" % (n, m, sname), "backup", "h_backup_at", defines=d, enforce="backup_at", unwind=6,
+                                  closes_loops="early-return loop: unwinding to the template constant N (complete)", replay="backup"))
+    return cells
+
+
+PROPS["C11"] = {
+    "level_text": "backup::at proved against C11's statement for every coordinate value of int/unsigned/size_t/float/double, N=1..4, M in {1,3}: default returned with zero backend queries iff some component is outside the closed box, otherwise exactly one query at the unchanged coordinate and its value returned bit-identically",
+    "level_note": "NaN coordinates / NaN box bounds are outside the domain; abstract backend stub",
+    "design_ref": "DESIGN.md section 5 (C11)",
+    "cells": cells_C11, "consts": False,
+    "explanation": "backup layer extracted and verified against an abstract backend contract with a query counter",
+    "trusted_base": [], "assumptions": ["coordinates and box bounds are not NaN"],
+    "not_covered": ["backup's constructors (the .fill() overload does not compile, D9)"],
+}
+
+
+# ------------------------------------------------------------------ C04
+def cells_C04(tier, consts):
+    cells = []
+    for n in (1, 2, 3, 4):
+        for cname, cty, lrint, mant in (("float", "float", "lrintf", 24), ("double", "double", "lrint", 52)):
+            for iname, ity, lo, himax in (("size_t", "size_t", "-0.5", 63), ("unsigned", "unsigned", "-0.5", 32), ("int", "int", None, 31)):
+                if tier == "quick" and n in (2, 4) and iname != "size_t":
+                    continue
+                e = min(mant, himax)
+                hi = "%d.0" % (2 ** e - (1 if himax <= mant else 0))
+                d = {"DIMS_IN": n, "IN_SCALAR_T": cty, "B_IN_SCALAR_T": ity, "DIMS_OUT": 1 if n == 2 else 3, "OUT_SCALAR_T": "float",
+                     "VERIF_LRINT": lrint, "NN_LO": lo if lo else "-" + hi, "NN_HI": hi}
+                cells.append(Cell("nn.at.N%d.%s.%s" % (n, cname, iname), "nn", "h_nn_at", defines=d, enforce="nn_at", unwind=6,
+                                  backends=(("sat", 300), ("cadical", 300)),
+                                  closes_loops="unwinding to the template constant N (complete)",
+                                  note="coordinates in [%s, %s]" % (d["NN_LO"], hi), replay="nn"))
+    return cells
+
+
+PROPS["C04"] = {
+    "level_text": "nearest_neighbour::at proved: exactly one backend query at a lattice point within one half of the coordinate in every component, for float and double coordinates, size_t/unsigned/int lattice indices, N=1..4, all coordinates in the stated range (all bit patterns)",
+    "level_note": "CBMC's model of lrintf/lrint in round-to-nearest-even; coordinates limited to the range on which every lattice point is representable in the coordinate type and the index type (2^24 float / 2^52 double / index max)",
+    "design_ref": "DESIGN.md section 5 (C04)",
+    "cells": cells_C04, "consts": False,
+    "explanation": "nearest-neighbour layer extracted and verified against an abstract backend contract",
+    "trusted_base": ["CBMC's models of lrintf/lrint (round to nearest, ties to even)"],
+    "assumptions": ["default rounding mode"],
+    "not_covered": [],
+}
